@@ -422,10 +422,14 @@ def known_findings():
     return out
 
 
+_current = [None]
+
+
 class Check:
     """collects what one check run covered and its verdict"""
 
     def __init__(self, pid, level):
+        _current[0] = self
         self.pid = pid
         self.level = level
         self.tier = os.environ.get('VERIF_TIER', 'quick')
